@@ -231,6 +231,10 @@ class ASTMProtocol(asyncio.Protocol):
         """Handle message data
         """
 
+        # every single frame must carry a valid checksum
+        if not validate_checksum(message):
+            raise NotAccepted("Checksum failed for '%r'" % message)
+
         full_message = None
         is_chunked_transfer = is_chunked_message(message)
 
